@@ -178,7 +178,17 @@ func genC14(t *core.Tape, tier string) *Scenario {
 	// client program
 	cancelAt := -1
 	byCancel := t.Bool(1, 4, "end.by.cancel")
-	if !byCancel && t.Bool(1, 6, "refused.by.interceptor") {
+	if !byCancel && t.Bool(1, 8, "refused.by.protocol") {
+		// the client compresses with an algorithm the handler does not have:
+		// the call is refused (unimplemented) before a byte of the request body
+		// is read - while a Send larger than the window is still blocked
+		sc.Clients[0].SendComp = "a"
+		sc.Clients[0].Accept = []string{"a"}
+		sc.Clients[0].CompressMin = 0
+		p.protoRefused = true
+		p.HErr = nil
+		sc.Notes["refused_by_protocol"]++
+	} else if !byCancel && t.Bool(1, 6, "refused.by.interceptor") {
 		// a handler-side interceptor refuses the call: user code never runs and
 		// the request is never read, so a Send larger than the window is still
 		// blocked when the call ends on the other side
@@ -279,7 +289,7 @@ func genC14(t *core.Tape, tier string) *Scenario {
 	if byCancel {
 		sc.Notes["end_by_cancel"]++
 	}
-	if p.Kind == KBidi && !byCancel && !p.InterceptorErr && len(p.ReqMsgs) > 0 && len(p.RespMsgs) > 0 && t.Bool(1, 6, "lockstep.readlimit") {
+	if p.Kind == KBidi && !byCancel && !p.InterceptorErr && !p.protoRefused && len(p.ReqMsgs) > 0 && len(p.RespMsgs) > 0 && t.Bool(1, 6, "lockstep.readlimit") {
 		// Lock-step conversation (send, receive, send, receive, ..., close)
 		// with a client read limit that one of the responses exceeds: that
 		// Receive fails locally, and it must return although the handler is
@@ -466,6 +476,16 @@ func checkC14(w *World, st core.Status, r *RunResult) []Violation {
 				add("outcome-mismatch/refused", "an interceptor refused the call, client saw success")
 			} else if !errors.As(o.Final, &ce) || ce.Code() != connect.Code(p.HErr.Code) || ce.Message() != p.HErr.Msg {
 				add("outcome-mismatch/refused", fmt.Sprintf("an interceptor refused the call with code %d %q, client got %v", p.HErr.Code, p.HErr.Msg, o.Final))
+			}
+		}
+		// 6c. a call refused by the protocol layer reports that refusal
+		if p.protoRefused && o.FinalSet && o.CancelStep < 0 {
+			r.Probes["protocol_refusal_checked"]++
+			var ce *connect.Error
+			if o.Final == nil {
+				add("outcome-mismatch/refused-by-protocol", "the handler lacks the request's compression, client saw success")
+			} else if !errors.As(o.Final, &ce) || ce.Code() != connect.CodeUnimplemented {
+				add("outcome-mismatch/refused-by-protocol", fmt.Sprintf("the handler refused the request's compression (unimplemented), client got %v", o.Final))
 			}
 		}
 		// 7b. Receives past the end of the stream change nothing: same trailers,
